@@ -2,6 +2,7 @@ import json
 import logging
 import os
 import time
+import uuid
 from pathlib import PurePath
 from typing import Any, Optional, List, Union, Dict
 from collections import OrderedDict
@@ -201,15 +202,20 @@ class LocalFileStore(Store):
             STU.from_type(type(blob)), codec
         )
         p = os.path.join(self._root, "blobs", key)
+        # The blob and its metadata are written under a temporary name and then renamed:
+        # a reader (or a later run, if this process is interrupted) never sees a partial file.
+        tmp_p = p + _tmp_suffix()
         if isinstance(protocol, CodecProtocol):
-            protocol.serialize_into(blob, GenericLocation(p))
+            protocol.serialize_into(blob, GenericLocation(tmp_p))
         elif isinstance(protocol, FileCodecProtocol):
-            # This is the local file system, we can directly copy the file to its final destination
-            protocol.serialize_into(blob, PurePath(p))
+            # This is the local file system, we can directly write the file next to its final destination
+            protocol.serialize_into(blob, PurePath(tmp_p))
         else:
             raise DDSException(f"Wrong protocol type: {type(protocol)} {protocol}")
+        os.replace(tmp_p, p)
         meta_p = os.path.join(self._root, "blobs", key + ".meta")
-        with open(meta_p, "wb") as f:
+        tmp_meta_p = meta_p + _tmp_suffix()
+        with open(tmp_meta_p, "wb") as f:
             f.write(
                 json.dumps(
                     {
@@ -218,11 +224,14 @@ class LocalFileStore(Store):
                     }
                 ).encode("utf-8")
             )
+        os.replace(tmp_meta_p, meta_p)
         _logger.debug(f"Committed new blob in {key}")
 
     def has_blob(self, key: PyHash) -> bool:
+        # The metadata is written last: the blob is committed only when both files are present.
         p = os.path.join(self._root, "blobs", key)
-        return os.path.exists(p)
+        meta_p = os.path.join(self._root, "blobs", key + ".meta")
+        return os.path.exists(p) and os.path.exists(meta_p)
 
     def sync_paths(self, paths: "OrderedDict[DDSPath, PyHash]") -> None:
         for (path, key) in paths.items():
@@ -266,6 +275,11 @@ class LocalFileStore(Store):
 
     def codec_registry(self) -> CodecRegistry:
         return codec_registry()
+
+
+def _tmp_suffix() -> str:
+    """A suffix for temporary files that is unique across processes."""
+    return f".tmp.{os.getpid()}.{uuid.uuid4().hex}"
 
 
 def current_timestamp() -> int:
